@@ -601,19 +601,42 @@ theorem goodHead_flow2 (n : PNode) (h : n.fl2 = true) : goodHead n.flow := by
   | anchored a n => simp [PNode.fl2, PNode.sc2] at h
   | alias a t => simp [PNode.fl2, PNode.sc2] at h
 
+/-- A flow collection: what follows its closing bracket is arbitrary. -/
+def PNode.isFlowColl : PNode → Bool
+  | .seq true _ _ _ => true
+  | .map true _ _ _ => true
+  | _ => false
+
 mutual
-theorem flowNode2 : (n : PNode) → n.fl2 = true → ∀ (f : Nat) (rest : Str) (k : Nat), n.need ≤ f → Delim rest →
+theorem flowNode2 : (n : PNode) → n.fl2 = true → ∀ (f : Nat) (rest : Str) (k : Nat), n.need ≤ f →
+    (Delim rest ∨ n.isFlowColl = true) →
     parseFlow f (spaces k ++ n.flow ++ rest) = .ok (n.node, rest)
   | .null v, h, f, rest, k, hf, hd => by
+    have hd : Delim rest := by
+      rcases hd with hd | hd
+      · exact hd
+      · simp [PNode.isFlowColl] at hd
     obtain ⟨f', rfl⟩ : ∃ f', f = f' + 1 := ⟨f - 1, by simp [PNode.need] at hf; omega⟩
     exact parseFlow_scalar _ (by simpa [PNode.fl2] using h) (by intros; simp) (by intros; simp) f' k rest hd
   | .bool b v, h, f, rest, k, hf, hd => by
+    have hd : Delim rest := by
+      rcases hd with hd | hd
+      · exact hd
+      · simp [PNode.isFlowColl] at hd
     obtain ⟨f', rfl⟩ : ∃ f', f = f' + 1 := ⟨f - 1, by simp [PNode.need] at hf; omega⟩
     exact parseFlow_scalar _ (by simpa [PNode.fl2] using h) (by intros; simp) (by intros; simp) f' k rest hd
   | .int i v, h, f, rest, k, hf, hd => by
+    have hd : Delim rest := by
+      rcases hd with hd | hd
+      · exact hd
+      · simp [PNode.isFlowColl] at hd
     obtain ⟨f', rfl⟩ : ∃ f', f = f' + 1 := ⟨f - 1, by simp [PNode.need] at hf; omega⟩
     exact parseFlow_scalar _ (by simpa [PNode.fl2] using h) (by intros; simp) (by intros; simp) f' k rest hd
   | .str s st, h, f, rest, k, hf, hd => by
+    have hd : Delim rest := by
+      rcases hd with hd | hd
+      · exact hd
+      · simp [PNode.isFlowColl] at hd
     obtain ⟨f', rfl⟩ : ∃ f', f = f' + 1 := ⟨f - 1, by simp [PNode.need] at hf; omega⟩
     exact parseFlow_scalar _ (by simpa [PNode.fl2] using h) (by intros; simp) (by intros; simp) f' k rest hd
   | .seq fl st c items, h, f, rest, k, hf, hd => by
@@ -632,7 +655,7 @@ theorem flowNode2 : (n : PNode) → n.fl2 = true → ∀ (f : Nat) (rest : Str) 
       have hx : x.fl2 = true := by simp [PItems.fl2] at hi; exact hi.1
       have hr : r.fl2 = true := by simp [PItems.fl2] at hi; exact hi.2
       have hneed : x.need + r.need + 2 ≤ f' := by simpa [PItems.need] using hf'
-      have e2 := flowNode2 x hx f' (r.flow false ++ ']' :: rest) 0 (by omega) (delim_items r rest)
+      have e2 := flowNode2 x hx f' (r.flow false ++ ']' :: rest) 0 (by omega) (Or.inl (delim_items r rest))
       simp only [spaces, List.replicate_zero, List.nil_append, List.append_assoc] at e2
       have st := itemStep f' m.gap x.flow (r.flow false ++ ']' :: rest) x.node [] (goodHead_flow2 x hx) e2
       simp only [PItems.flow, if_true, List.nil_append, List.append_assoc] at st ⊢
@@ -656,7 +679,7 @@ theorem flowNode2 : (n : PNode) → n.fl2 = true → ∀ (f : Nat) (rest : Str) 
       have hr : r.fl2 = true := by simp [PEntries.fl2] at hi; exact hi.2
       have hneed : x.need + r.need + 3 ≤ f' := by simpa [PEntries.need] using hf'
       obtain ⟨f'', rfl⟩ : ∃ f'', f' = f'' + 1 := ⟨f' - 1, by omega⟩
-      have e2 := flowNode2 x hx (f'' + 1) (r.flow false ++ '}' :: rest) (m.gap + 1) (by omega) (delim_entries r rest)
+      have e2 := flowNode2 x hx (f'' + 1) (r.flow false ++ '}' :: rest) (m.gap + 1) (by omega) (Or.inl (delim_entries r rest))
       have ek := parseFlow_key key ks hk f'' 0 (spaces m.gap ++ (x.flow ++ (r.flow false ++ '}' :: rest)))
       have hsp : spaces (m.gap + 1) = ' ' :: spaces m.gap := by simp [spaces, List.replicate_succ]
       simp only [show spaces 0 = ([] : Str) from rfl, List.nil_append] at ek
@@ -683,7 +706,7 @@ theorem flowItemsTail2 : (items : PItems) → items.fl2 = true → ∀ (f : Nat)
     simp only [PItems.flow, Bool.false_eq_true, if_false, List.append_assoc, List.cons_append, List.nil_append,
       dropSpaces, List.dropWhile_cons]
     simp only [show ((',' : Char) == ' ') = false by decide, Bool.false_eq_true, if_false]
-    have e2 := flowNode2 x hx f'' (r.flow false ++ ']' :: rest) 0 (by omega) (delim_items r rest)
+    have e2 := flowNode2 x hx f'' (r.flow false ++ ']' :: rest) 0 (by omega) (Or.inl (delim_items r rest))
     simp only [spaces, List.replicate_zero, List.nil_append, List.append_assoc] at e2
     have st := itemStep f'' (m.gap + 1) x.flow (r.flow false ++ ']' :: rest) x.node acc (goodHead_flow2 x hx) e2
     simp only [List.append_assoc] at st
@@ -705,7 +728,7 @@ theorem flowEntriesTail2 : (es : PEntries) → es.fl2 = true → ∀ (f : Nat) (
     simp only [PEntries.flow, Bool.false_eq_true, if_false, List.append_assoc, List.cons_append, List.nil_append,
       dropSpaces, List.dropWhile_cons]
     simp only [show ((',' : Char) == ' ') = false by decide, Bool.false_eq_true, if_false]
-    have e2 := flowNode2 x hx (f'' + 1) (r.flow false ++ '}' :: rest) (m.gap + 1) (by omega) (delim_entries r rest)
+    have e2 := flowNode2 x hx (f'' + 1) (r.flow false ++ '}' :: rest) (m.gap + 1) (by omega) (Or.inl (delim_entries r rest))
     have ek := parseFlow_key key ks hk f'' 0 (spaces m.gap ++ (x.flow ++ (r.flow false ++ '}' :: rest)))
     have hsp : spaces (m.gap + 1) = ' ' :: spaces m.gap := by simp [spaces, List.replicate_succ]
     simp only [show spaces 0 = ([] : Str) from rfl, List.nil_append] at ek
@@ -1600,7 +1623,7 @@ theorem inline2_of_facts (X : Str) (nd : Node) (h : InlineFacts X nd) : Inline2 
 theorem inline_coll2 (n : PNode) (h : n.fl2 = true) (c : Char) (r : Str) (hx : n.flow = c :: r) (hc : c = '[' ∨ c = '{') :
     Inline2 n.flow n.node := by
   have hb := need_bound2 n h
-  have hf := flowNode2 n h (4 * n.flow.length + 4) [] 0 (by omega) (Or.inl rfl)
+  have hf := flowNode2 n h (4 * n.flow.length + 4) [] 0 (by omega) (Or.inl (Or.inl rfl))
   simp only [spaces, List.replicate_zero, List.nil_append, List.append_nil] at hf
   rw [hx] at hf ⊢
   rcases hc with rfl | rfl
@@ -1667,48 +1690,355 @@ theorem inline_sq (s : Str) (hs : s.all isPrintable = true) : Inline2 (sqText s)
     simp [dropSpaces]
   · simp only [sqText_eq, parseInline, h, restOk_nil, if_true]
 
-/-- Inline values of layer 2 with non-empty text. -/
-theorem inline2_value (x : PNode) (ctx : Ctx) (h : x.bl2 ctx = true) (hi : x.isInline2 = true) (hne : x.flow ≠ []) :
-    Inline2 x.flow x.node := by
+
+/-- The text of a trailing comment (or nothing). -/
+def TrailOk (T : Str) : Prop := T = [] ∨ ∃ c, T = ' ' :: '#' :: c
+
+theorem trailOk_trailText (t : Option Str) : TrailOk (trailText t) := by
+  cases t with
+  | none => exact Or.inl rfl
+  | some c => exact Or.inr ⟨c, rfl⟩
+
+theorem restOk_trail (T : Str) (h : TrailOk T) : restOk T = true := by
+  rcases h with rfl | ⟨c, rfl⟩
+  · rfl
+  · simp [restOk, isBlankOrComment, dropSpaces, List.dropWhile_cons]
+
+theorem stop_trail (flow : Bool) (T : Str) (h : TrailOk T) : Stop flow T := by
+  rcases h with rfl | ⟨c, rfl⟩
+  · exact Or.inl rfl
+  · exact Or.inr (Or.inr (Or.inr (Or.inl ⟨c, rfl⟩)))
+
+theorem plainLen_simpleT (t T : Str) (ht : t.all simpleChar = true) (hT : TrailOk T) :
+    plainLen false (t ++ T) = t.length := by
+  induction t with
+  | nil =>
+    rcases hT with rfl | ⟨c, rfl⟩
+    · simp [plainLen]
+    · simp [plainLen]
+  | cons c t ih =>
+    simp only [List.all_cons, Bool.and_eq_true] at ht
+    obtain ⟨h1, h2, h3, h4, h5⟩ := simpleChar_facts c ht.1
+    have ih' := ih ht.2
+    cases hrest : t ++ T with
+    | nil =>
+      simp only [List.cons_append, hrest]
+      have : t = [] := by cases t <;> simp_all
+      subst this
+      simp [plainLen, h1]
+    | cons d r =>
+      simp only [List.cons_append, hrest]
+      rw [plainLen]
+      simp only [Bool.false_and, Bool.false_eq_true, if_false]
+      rw [← hrest, ih']
+      simp [h1, h2]; omega
+
+theorem parsePlain_tokT (t T : Str) (ht : tokOk t) (hT : TrailOk T) :
+    parsePlain false (t ++ T) = .ok (t, T) := by
+  have h0 := parsePlain_tok false t [] ht (Or.inl rfl)
+  obtain ⟨hall, hne, hdash⟩ := ht
+  have hlen := plainLen_simpleT t T hall hT
+  -- plainFirstOk only looks at the first two characters, which are those of `t` or a space
+  have hfirst0 : plainFirstOk false t = true := by
+    simp only [List.append_nil] at h0
+    unfold parsePlain at h0
+    cases hf : plainFirstOk false t with
+    | true => rfl
+    | false => simp [hf] at h0
+  have hfirst : plainFirstOk false (t ++ T) = true := by
+    cases t with
+    | nil => exact absurd rfl hne
+    | cons c t' =>
+      cases t' with
+      | cons d t'' => simpa [plainFirstOk] using hfirst0
+      | nil =>
+        have hc : simpleChar c = true := by simpa using hall
+        have hcd : c ≠ '-' := by intro e; subst e; have := hdash rfl; simp at this
+        rcases hT with rfl | ⟨cm, rfl⟩
+        · simpa using hfirst0
+        · obtain ⟨h1, h2, h3, h4, h5⟩ := simpleChar_facts c hc
+          have hq : c ≠ '?' := by intro h; subst h; revert hc; decide
+          have hni : isIndicator c = false := by
+            cases hi : isIndicator c with
+            | false => rfl
+            | true =>
+              rcases indicator_not_simple c hi with h | h
+              · exact absurd h hcd
+              · rw [hc] at h; cases h
+          simp [plainFirstOk, hcd, hq, h1, hni, h2]
+  unfold parsePlain
+  simp only [hfirst, Bool.not_true, Bool.false_eq_true, if_false, hlen, List.take_left', List.drop_left']
+  have hlast : t.getLast? ≠ some ' ' := by
+    intro h
+    have hm : ' ' ∈ t := List.mem_of_getLast? h
+    have := List.all_eq_true.mp hall ' ' hm
+    revert this; decide
+  rw [trimRight_of_last t hlast]
+  have hnotab : t.any (· == '\t') = false := by
+    rw [List.any_eq_false]
+    intro x hx
+    have := List.all_eq_true.mp hall x hx
+    obtain ⟨_, _, g3, _, _⟩ := simpleChar_facts x this
+    simpa using g3
+  simp [hnotab]
+
+/-- After a complete scalar, a trailing comment is not a key indicator. -/
+theorem afterKey_trail (T : Str) (hT : TrailOk T) :
+    (match T with
+      | [':'] => (1 : Nat)
+      | ':' :: ' ' :: _ => 2
+      | _ => 0) = 0 := by
+  rcases hT with rfl | ⟨c, rfl⟩ <;> rfl
+
+theorem inline_tokT (t : Str) (ht : tokOk t) (T : Str) (hT : TrailOk T) :
+    isDash (t ++ T) = false ∧ splitKey (t ++ T) = .ok none ∧ parseInline (t ++ T) = .ok (.scalar true t) := by
+  have hp := parsePlain_tokT t T ht hT
+  have hlen := plainLen_simpleT t T ht.1 hT
+  obtain ⟨hall, hne, hdash⟩ := ht
+  cases t with
+  | nil => exact absurd rfl hne
+  | cons c r =>
+    have hc : simpleChar c = true := by simp only [List.all_cons, Bool.and_eq_true] at hall; exact hall.1
+    refine ⟨?_, ?_, ?_⟩
+    · cases r with
+      | nil =>
+        have h : c ≠ '-' := by intro h; subst h; have := hdash rfl; simp at this
+        simp only [List.cons_append, List.nil_append]
+        unfold isDash; split
+        · rename_i heq; exact absurd (List.cons.inj heq).1 h
+        · rename_i heq; exact absurd (List.cons.inj heq).1 h
+        · rfl
+      | cons d r' =>
+        have hd : simpleChar d = true := by simp only [List.all_cons, Bool.and_eq_true] at hall; exact hall.2.1
+        have hd' : d ≠ ' ' := (simpleChar_facts d hd).2.1
+        simp only [List.cons_append]
+        unfold isDash; split
+        · rename_i heq; simp at heq
+        · rename_i heq; exact absurd (List.cons.inj (List.cons.inj heq).2).1 hd'
+        · rfl
+    · simp only [List.cons_append] at hlen ⊢
+      unfold splitKey
+      split
+      all_goals (try (rename_i heq; have := (List.cons.inj heq).1; subst this; exact absurd hc (by decide)))
+      simp only [hlen]
+      have : List.drop (c :: r).length (c :: (r ++ T)) = T := by
+        have := List.drop_left' (l₁ := c :: r) (l₂ := T) rfl
+        simpa using this
+      rw [this]
+      rcases hT with rfl | ⟨cm, rfl⟩ <;> rfl
+    · simp only [List.cons_append] at hp ⊢
+      unfold parseInline
+      split
+      all_goals (try (rename_i heq; have := (List.cons.inj heq).1; subst this; exact absurd hc (by decide)))
+      simp only [hp, restOk_trail T hT, if_true]
+
+
+/-- What the line-level parser needs to know about an inline node's text, with or without a trailing
+comment after it. -/
+structure Inline3 (X : Str) (nd : Node) : Prop where
+  head : ∃ c r, X = c :: r ∧ c ≠ ' ' ∧ c ≠ '\t' ∧ c ≠ '#' ∧ c ≠ '|' ∧ c ≠ '>' ∧ c ≠ '&'
+  dash : ∀ T, TrailOk T → isDash (X ++ T) = false
+  key : ∀ T, TrailOk T → splitKey (X ++ T) = .ok none
+  inl : ∀ T, TrailOk T → parseInline (X ++ T) = .ok nd
+
+theorem Inline3.to2 {X : Str} {nd : Node} (h : Inline3 X nd) : Inline2 X nd :=
+  ⟨h.head, by simpa using h.dash [] (Or.inl rfl), by simpa using h.key [] (Or.inl rfl), by simpa using h.inl [] (Or.inl rfl)⟩
+
+theorem parseAfter_inline3 (f g col pn : Nat) (cOk sSame : Bool) (X : Str) (nd : Node) (T : Str) (hT : TrailOk T) (ls : List Line)
+    (hf : Inline3 X nd) :
+    parseAfter (f + 1) (spaces (g + 1) ++ X ++ T) col pn cOk sSame ls = .ok (nd, ls) := by
+  obtain ⟨⟨c, r, rfl, hsp, htab, hhash, hbar, hgt, hamp⟩, hdash, hkey, hinl⟩ := hf
+  have hds : dropSpaces (spaces (g + 1) ++ (c :: r) ++ T) = c :: (r ++ T) := by
+    have := dropSpaces_spaces (g + 1) c (r ++ T) hsp
+    simpa [List.append_assoc] using this
+  have hdash := hdash T hT
+  have hkey := hkey T hT
+  have hinl := hinl T hT
+  simp only [List.cons_append] at hdash hkey hinl
+  rw [parseAfter]
+  simp only [hds, List.head?_cons, show (some c == some '\t') = false by simp [htab],
+    Bool.false_eq_true, if_false, List.isEmpty_cons, show (some c == some '#') = false by simp [hhash],
+    Bool.false_and, Bool.or_self]
+  split
+  · rename_i heq; exact absurd (List.cons.inj heq).1 hbar
+  · rename_i heq; exact absurd (List.cons.inj heq).1 hgt
+  · rename_i heq; exact absurd (List.cons.inj heq).1 hamp
+  · simp only [hdash, Bool.false_eq_true, if_false, hkey, hinl]
+    rfl
+
+theorem inline3_tok (t : Str) (ht : tokOk t) : Inline3 t (.scalar true t) := by
+  obtain ⟨c, r, hx, hc⟩ := headClass_tok _ ht
+  exact ⟨⟨c, r, hx, headClass_ne c hc ' ' (by decide), headClass_ne c hc '\t' (by decide), headClass_ne c hc '#' (by decide),
+    headClass_ne c hc '|' (by decide), headClass_ne c hc '>' (by decide), headClass_ne c hc '&' (by decide)⟩,
+    fun T hT => (inline_tokT t ht T hT).1, fun T hT => (inline_tokT t ht T hT).2.1, fun T hT => (inline_tokT t ht T hT).2.2⟩
+
+theorem inline3_coll (n : PNode) (h : n.fl2 = true) (c : Char) (r : Str) (hx : n.flow = c :: r) (hc : c = '[' ∨ c = '{')
+    (hcoll : n.isFlowColl = true) : Inline3 n.flow n.node := by
+  have hb := need_bound2 n h
+  have hf : ∀ T, parseFlow (4 * (n.flow ++ T).length + 4) (n.flow ++ T) = .ok (n.node, T) := by
+    intro T
+    have := flowNode2 n h (4 * (n.flow ++ T).length + 4) T 0 (by simp only [List.length_append]; omega) (Or.inr hcoll)
+    simpa [spaces] using this
+  rw [hx] at hf ⊢
+  rcases hc with rfl | rfl
+  · refine ⟨⟨_, _, rfl, by decide, by decide, by decide, by decide, by decide, by decide⟩, fun T _ => by simp [isDash],
+      fun T _ => by simp [splitKey], ?_⟩
+    intro T hT
+    have := hf T
+    simp only [List.cons_append] at this ⊢
+    simp only [parseInline, this, restOk_trail T hT, if_true]
+  · refine ⟨⟨_, _, rfl, by decide, by decide, by decide, by decide, by decide, by decide⟩, fun T _ => by simp [isDash],
+      fun T _ => by simp [splitKey], ?_⟩
+    intro T hT
+    have := hf T
+    simp only [List.cons_append] at this ⊢
+    simp only [parseInline, this, restOk_trail T hT, if_true]
+
+theorem dropSpaces_trail (T : Str) (hT : TrailOk T) :
+    (match dropSpaces T with
+      | [':'] => (.ok (some (Node.scalar false [], ([] : Str))) : R (Option (Node × Str)))
+      | ':' :: ' ' :: r' => .ok (some (Node.scalar false [], ' ' :: r'))
+      | _ => .ok none) = .ok none := by
+  rcases hT with rfl | ⟨c, rfl⟩
+  · rfl
+  · simp [dropSpaces, List.dropWhile_cons]
+
+theorem inline3_sq (s : Str) (hs : s.all isPrintable = true) : Inline3 (sqText s) (.scalar false s) := by
+  have h : ∀ T, TrailOk T → parseSQ (sqBody s ++ '\'' :: T) = .ok (s, T) := by
+    intro T hT
+    apply parseSQ_body s T hs
+    rcases hT with rfl | ⟨c, rfl⟩ <;> simp
+  have e : ∀ T, sqText s ++ T = '\'' :: (sqBody s ++ '\'' :: T) := by intro T; simp [sqText_eq]
+  refine ⟨⟨'\'', _, rfl, by decide, by decide, by decide, by decide, by decide, by decide⟩, fun T _ => by simp [sqText, isDash], ?_, ?_⟩
+  · intro T hT
+    have hh := h T hT
+    rw [e T]
+    simp only [splitKey, hh]
+    rcases hT with rfl | ⟨c, rfl⟩ <;> simp [dropSpaces]
+  · intro T hT
+    have hh := h T hT
+    rw [e T]
+    simp only [parseInline, hh, restOk_trail T hT, if_true]
+
+theorem inline3_dq (sh eu : Bool) (s : Str) : Inline3 (dqText sh eu s) (.scalar false s) := by
+  have e : ∀ T, dqText sh eu s ++ T = '"' :: (s.flatMap (dqChar sh eu) ++ '"' :: T) := by intro T; simp [dqText]
+  refine ⟨⟨'"', _, rfl, by decide, by decide, by decide, by decide, by decide, by decide⟩, fun T _ => by simp [dqText, isDash], ?_, ?_⟩
+  · intro T hT
+    have h := parseDQ_dqBody sh eu s T
+    rw [e T]
+    simp only [splitKey, h]
+    rcases hT with rfl | ⟨c, rfl⟩ <;> simp [dropSpaces]
+  · intro T hT
+    have h := parseDQ_dqBody sh eu s T
+    rw [e T]
+    simp only [parseInline, h, restOk_trail T hT, if_true]
+
+theorem inline3_plain (s : Str) (hs : plainSafe false s = true) : Inline3 s (.scalar true s) := by
+  have hp : ∀ T, TrailOk T → parsePlain false (s ++ T) = .ok (s, T) :=
+    fun T hT => parsePlain_safe false s T hs (stop_trail false T hT)
+  have hs0 := hs
+  simp only [plainSafe, Bool.and_eq_true, bne_iff_ne, ne_eq, Bool.not_eq_true'] at hs
+  have hlen : ∀ T, TrailOk T → plainLen false (s ++ T) = s.length :=
+    fun T hT => plainLen_safe false s T hs.1.1.2 hs.1.1.1.2 (stop_trail false T hT)
+  obtain ⟨c, t, rfl, hc⟩ := plainFirst_head false s hs.1.1.1.1.2
+  have hpr : isPrintable c = true := by
+    have := hs.1.1.1.1.1; simp only [List.all_cons, Bool.and_eq_true] at this; exact this.1
+  have hfirst := hs.1.1.1.1.2
+  refine ⟨⟨c, t, rfl, hc.1, printable_ne_tab c hpr, plainHead_ne c hc '#' (by decide), plainHead_ne c hc '|' (by decide),
+    plainHead_ne c hc '>' (by decide), plainHead_ne c hc '&' (by decide)⟩, ?_, ?_, ?_⟩
+  · intro T _
+    simp only [List.cons_append]
+    by_cases hd : c = '-'
+    · subst hd
+      simp only [plainFirstOk, beq_self_eq_true, Bool.true_or, if_true] at hfirst
+      cases t with
+      | nil => simp at hfirst
+      | cons d t' =>
+        have hd' : d ≠ ' ' := by simp only [Bool.and_eq_true, bne_iff_ne] at hfirst; exact hfirst.1
+        simp only [List.cons_append, isDash]
+        split
+        · rename_i heq; simp at heq
+        · rename_i heq; exact absurd (List.cons.inj (List.cons.inj heq).2).1 hd'
+        · rfl
+    · simp only [isDash]
+      split
+      · rename_i heq; exact absurd (List.cons.inj heq).1 hd
+      · rename_i heq; exact absurd (List.cons.inj heq).1 hd
+      · rfl
+  · intro T hT
+    have hl := hlen T hT
+    simp only [List.cons_append] at hl ⊢
+    unfold splitKey
+    split
+    · rename_i heq; exact absurd (List.cons.inj heq).1 (plainHead_ne c hc '"' (by decide))
+    · rename_i heq; exact absurd (List.cons.inj heq).1 (plainHead_ne c hc '\'' (by decide))
+    · rename_i heq; exact absurd (List.cons.inj heq).1 (plainHead_ne c hc '[' (by decide))
+    · rename_i heq; exact absurd (List.cons.inj heq).1 (plainHead_ne c hc '{' (by decide))
+    · rename_i heq; exact absurd (List.cons.inj heq).1 (plainHead_ne c hc '&' (by decide))
+    · rename_i heq; exact absurd (List.cons.inj heq).1 (plainHead_ne c hc '*' (by decide))
+    · rename_i heq; exact absurd (List.cons.inj heq).1 (plainHead_ne c hc '|' (by decide))
+    · rename_i heq; exact absurd (List.cons.inj heq).1 (plainHead_ne c hc '>' (by decide))
+    · rename_i heq; exact absurd (List.cons.inj heq).1 (plainHead_ne c hc '#' (by decide))
+    · simp only [hl]
+      have : List.drop (c :: t).length (c :: (t ++ T)) = T := by
+        have := List.drop_left' (l₁ := c :: t) (l₂ := T) rfl
+        simpa using this
+      rw [this]
+      rcases hT with rfl | ⟨cm, rfl⟩ <;> rfl
+  · intro T hT
+    have hp' := hp T hT
+    simp only [List.cons_append] at hp' ⊢
+    unfold parseInline
+    split
+    · rename_i heq; exact absurd (List.cons.inj heq).1 (plainHead_ne c hc '"' (by decide))
+    · rename_i heq; exact absurd (List.cons.inj heq).1 (plainHead_ne c hc '\'' (by decide))
+    · rename_i heq; exact absurd (List.cons.inj heq).1 (plainHead_ne c hc '[' (by decide))
+    · rename_i heq; exact absurd (List.cons.inj heq).1 (plainHead_ne c hc '{' (by decide))
+    · rename_i heq; exact absurd (List.cons.inj heq).1 (plainHead_ne c hc '*' (by decide))
+    · simp only [hp', restOk_trail T hT, if_true]
+
+
+/-- Inline values of layers 2–4 with non-empty text. -/
+theorem inline3_value (x : PNode) (ctx : Ctx) (h : x.bl2 ctx = true) (hi : x.isInline2 = true) (hne : x.flow ≠ []) :
+    Inline3 x.flow x.node := by
   cases x with
   | seq fl st c items =>
     cases fl with
-    | true => exact inline_coll2 _ (by simpa [PNode.bl2] using h) '[' _ rfl (Or.inl rfl)
+    | true => exact inline3_coll _ (by simpa [PNode.bl2] using h) '[' _ rfl (Or.inl rfl) rfl
     | false => simp [PNode.isInline2] at hi
   | map fl st c es =>
     cases fl with
-    | true => exact inline_coll2 _ (by simpa [PNode.bl2] using h) '{' _ rfl (Or.inr rfl)
+    | true => exact inline3_coll _ (by simpa [PNode.bl2] using h) '{' _ rfl (Or.inr rfl) rfl
     | false => simp [PNode.isInline2] at hi
   | null v =>
     have h4 : v % 5 ≠ 4 := by
       intro h4; apply hne; simp [PNode.flow, nullText, h4]
     have ht := tokOk_nullText v h4
-    obtain ⟨h1, h2, h3⟩ := inline_tok _ ht
-    exact inline2_of_facts _ _ ⟨headClass_tok _ ht, okc_tok _ ht, h1, h2, h3⟩
+    exact inline3_tok _ ht
   | bool b v =>
     have ht := tokOk_boolText b v
-    obtain ⟨h1, h2, h3⟩ := inline_tok _ ht
-    exact inline2_of_facts _ _ ⟨headClass_tok _ ht, okc_tok _ ht, h1, h2, h3⟩
+    exact inline3_tok _ ht
   | int i v =>
     have ht := (intText_facts i v).1
-    obtain ⟨h1, h2, h3⟩ := inline_tok _ ht
-    exact inline2_of_facts _ _ ⟨headClass_tok _ ht, okc_tok _ ht, h1, h2, h3⟩
+    exact inline3_tok _ ht
   | str s st =>
     cases st with
     | plain =>
       have hs : plainSafe false s = true := by simp [PNode.bl2, PNode.sc2] at h; exact h.1
-      exact inline_plain s hs
+      exact inline3_plain s hs
     | single =>
       have hs : s.all isPrintable = true := by simpa [PNode.bl2, PNode.sc2] using h
-      exact inline_sq s hs
+      exact inline3_sq s hs
     | double sh eu =>
-      obtain ⟨h1, h2, h3⟩ := inline_dq sh eu s
-      exact ⟨⟨'"', _, rfl, by decide, by decide, by decide, by decide, by decide, by decide⟩, h1, h2, h3⟩
+      exact inline3_dq sh eu s
     | literal ch ind ex => simp [PNode.isInline2] at hi
     | folded ch ind ex fo => simp [PNode.isInline2] at hi
   | anchored a n => simp [PNode.bl2, PNode.sc2] at h
   | alias a t => simp [PNode.bl2, PNode.sc2] at h
 
+
+theorem inline2_value (x : PNode) (ctx : Ctx) (h : x.bl2 ctx = true) (hi : x.isInline2 = true) (hne : x.flow ≠ []) :
+    Inline2 x.flow x.node := (inline3_value x ctx h hi hne).to2
 
 /-- Minimal indentation of a child of an entry at indentation `e`. -/
 def pnOf (ctx : Ctx) (e : Nat) : Nat := if ctx = .root then 0 else e + 1
